@@ -292,8 +292,9 @@ def c14(A, ctx, tier):
     plumb.r_who(A, ctx, dict(floor=13))
     misc.r_grporder(A, ctx, dict(floor=6))
     cox.r_cox_reduction(A, ctx, dict(floor=15))
-    ctx.assume("limit reductions (gamma -> inf, delta -> inf), SLOPE vs L1, Gram vs CD, integer "
-               "weights vs replicated rows are not decided")
+    cox.r_replicated_rows(A, ctx, {})
+    cox.r_singleton_groups(A, ctx, {})
+    ctx.assume("limit reductions (gamma -> inf, delta -> inf), SLOPE vs L1, Gram vs CD are not decided")
     return dict(explanation="method-by-method equality of lifted terms under the substitution "
                 "that makes the general component coincide with the special one (weights := 1, "
                 "l1_ratio := 1, sample_weights := 1, group accessor at one feature); every "
